@@ -4,6 +4,7 @@ package server
 
 import (
 	"github.com/fatedier/frp/pkg/msg"
+	"github.com/fatedier/frp/server/visitor"
 	"github.com/fatedier/frp/zzverif"
 )
 
@@ -17,14 +18,32 @@ func VerifC12NameRace() {
 	zzProbeAnswer = true
 	c1, _ := zzControl(svr, "r1", 0)
 	c2, _ := zzControl(svr, "r2", 0)
+	vm := visitor.NewManager()
+	svr.rc.VisitorManager = vm
+	typ := []string{"tcp", "sudp", "stcp"}[zzverif.Choice("type", 3)]
 	var e2 error
 	done2 := false
 	go func() {
-		_, e2 = c2.RegisterProxy(&msg.NewProxy{ProxyName: "p", ProxyType: "tcp", RemotePort: 1001})
+		_, e2 = c2.RegisterProxy(&msg.NewProxy{ProxyName: "p", ProxyType: typ, RemotePort: 1001, Sk: "k2"})
 		done2 = true
 	}()
-	_, e1 := c1.RegisterProxy(&msg.NewProxy{ProxyName: "p", ProxyType: "tcp", RemotePort: 1000})
+	_, e1 := c1.RegisterProxy(&msg.NewProxy{ProxyName: "p", ProxyType: typ, RemotePort: 1000, Sk: "k1"})
 	zzverif.Quiesce()
+	if typ != "tcp" {
+		// secret proxies hold a visitor-listener entry instead of a port
+		zzverif.Assert(done2 && (e1 == nil) != (e2 == nil), "C12.race.exactly-one-secret-proxy-wins")
+		zzverif.Assert(vm.ZZListeners() == 1, "C12.race.winner-keeps-its-visitor-entry")
+		loser := c2
+		if e1 != nil {
+			loser = c1
+		}
+		_ = loser.CloseProxy(&msg.CloseProxy{ProxyName: "p"})
+		zzverif.Assert(vm.ZZListeners() == 1, "C12.race.close-by-loser-leaves-the-winner's-visitor-entry")
+		_, ok := svr.pxyManager.GetByName("p")
+		zzverif.Assert(ok, "C12.race.secret-name-still-published")
+		zzverif.Reach("C12.race.secret")
+		return
+	}
 	zzverif.Assert(done2, "C12.race.both-terminate")
 	zzverif.Assert(e1 == nil || e2 == nil, "C12.race.one-registration-wins")
 	zzverif.Assert(!(e1 == nil && e2 == nil), "C12.race.at-most-one-live-proxy-per-name")
